@@ -86,6 +86,22 @@ class TDro(TypedDict):
     when: NotRequired[ReadOnly[datetime.date]]
 
 @dataclass
+class Shape(DataClassDictMixin):
+    area: int = 0
+
+@dataclass
+class Circle(Shape):
+    kind: str = 'circle'
+    r: int = 0
+
+@dataclass
+class Sq(Shape):
+    kind: str = 'sq'
+    side: datetime.date = datetime.date(2000, 1, 1)
+
+DSC = Discriminator(field='kind', include_subtypes=True)
+
+@dataclass
 class Rare@MIX@:
     w1: DictWrapper[datetime.date, str]
     w2: DictWrapper[str, datetime.date]
@@ -98,6 +114,13 @@ class Rare@MIX@:
     empty: Row[()] = field(default_factory=lambda: Row(()))
     wopt: Optional[DictWrapper[int, int]] = None
 @CFG@
+@dataclass
+class RareD(DataClassDictMixin):
+    # (subclass instances in parent-typed members: written by their own class through the mixin methods, which is what is read back)
+    shapes: Annotated[List[Shape], DSC] = field(default_factory=list)
+    shmap: Annotated[Dict[str, Shape], DSC] = field(default_factory=dict)
+    shopt: Annotated[Optional[Shape], DSC] = None
+
 """
 
 
@@ -130,6 +153,22 @@ def rare_constructors_case(rng, rec):
         v = m.Rare(w1=m.DictWrapper({d1: txt}), w2=m.DictWrapper({"k": d2}), row=m.Row((1, d1, "s"), "l"), lead=m.Lead(d2, (7, u)), ls=txt, pt=m.Point(1, "y"),
                    ro={"ident": 3, "when": d1} if rng.random() < 0.6 else {"ident": 3}, rows=[m.Row((d2,))], empty=m.Row(()),
                    wopt=m.DictWrapper({1: 2}) if rng.random() < 0.5 else None)
+        vd = m.RareD(shapes=[m.Circle(1, r=2), m.Sq(3, side=d2)], shmap={"k": m.Sq(4, side=d1)}, shopt=m.Circle(5, r=6) if rng.random() < 0.5 else None)
+        expd = {"shapes": [{"area": 1, "kind": "circle", "r": 2}, {"area": 3, "kind": "sq", "side": d2.isoformat()}],
+                "shmap": {"k": {"area": 4, "kind": "sq", "side": d1.isoformat()}}, "shopt": {"area": 5, "kind": "circle", "r": 6} if vd.shopt is not None else None}
+        rec.evaluation()
+        try:
+            docd = vd.to_dict()
+            backd = m.RareD.from_dict(docd)
+            if docd != expd:
+                rec.violation("rare-constructors:discriminated-collections:document-differs", {"observed": common.short(docd, 500), "expected": common.short(expd, 500), "source": src}, {"scenario": "rare"})
+            elif backd != vd or [type(x) for x in backd.shapes] != [m.Circle, m.Sq] or type(backd.shmap["k"]) is not m.Sq:
+                rec.violation("rare-constructors:discriminated-collections:roundtrip-mismatch", {"decoded": common.short(backd, 500), "value": common.short(vd, 500), "source": src}, {"scenario": "rare"})
+            else:
+                rec.count("roundtrips_ok")
+                rec.count("rare_discriminated_collections_ok")
+        except Exception as e:
+            rec.violation(f"rare-constructors:discriminated-collections:exception:{type(e).__name__}", {"error": f"{type(e).__name__}: {e}"[:300], "cause": repr(e.__context__)[:200], "source": src}, {"scenario": "rare"})
         exp = {"w1": {d1.isoformat(): txt}, "w2": {"k": d2.isoformat()}, "row": {"cells": [1, d1.isoformat(), "s"], "label": "l"},
                "lead": {"head": d2.isoformat(), "rest": [7, str(u)]}, "ls": txt, "pt": [1, "y"],
                "ro": {"ident": 3, **({"when": d1.isoformat()} if "when" in v.ro else {})}, "rows": [{"cells": [d2.isoformat()], "label": ""}],
@@ -228,7 +267,7 @@ def run_case(seed, tier, rec, st):
                                    "error": f"{type(ex).__name__}: {ex}"[:300], "family": fam.to_json()},
                                   dict(facts_for(fam, t, v, None, ex), encoded_only_basic=is_basic))
                     continue
-                if deep_eq(back, v, key_order=False):
+                if deep_eq(back, v, key_order=False, ordered_dicts=True):
                     rec.count("roundtrips_ok")
                 else:
                     rec.violation(f"{rname}:roundtrip-mismatch:{mismatch_kind(v, back)}",
